@@ -3,6 +3,8 @@ import KyupyVerif.Proofs.Consistent
 import KyupyVerif.Model.SimOps
 import KyupyVerif.Proofs.Solve
 import KyupyVerif.Proofs.GenOpsWO
+import KyupyVerif.Proofs.StripLinkMem
+import KyupyVerif.Gen.Tables
 /-! # C01 — 2-valued logic simulation computes the netlist's Boolean function
 
 Generated from the working tree: `Gen.sem2n` (what `logic_sim._prop_cpu` computes for an op code),
@@ -114,6 +116,49 @@ def demoNet : Net :=
     lines := #[⟨0, 0, 1, 0⟩, ⟨2, 0, 3, 0⟩, ⟨1, 0, 4, 0⟩, ⟨3, 0, 4, 1⟩, ⟨4, 0, 5, 0⟩, ⟨5, 0, 6, 0⟩],
     io := [0, 2, 6] }
 example : demoNet.wfB = true ∧ orderOKB demoNet [0, 2, 1, 3, 4, 5, 6] = true := by decide +kernel
+
+/-- (4''') **end to end, on memory**: for every well-formed netlist and topological order, if the tables of the real
+    simulator (`ops` = the generated program, `level_starts`, `c_locs`, `c_caps`; any allocator, with or without memory
+    re-use) pass the map certificate — it is evaluated on the real tables of every generated case, C08 — then after the
+    op rows have run ON MEMORY the row of every output slot `j` holds the value that ANY solution `val` of the netlist's
+    gate equations assigns to the captured signal `s`. Any value domain / op semantics `f` (2-, 4-, 8-valued, bit-parallel).
+    Composition of `all_circuits_solution` (the program computes the unique solution) with `C08.map_certificate_sound_logic`
+    (memory-level execution = signal-level execution). -/
+theorem logic_sim_end_to_end {α} [Inhabited α] (tbl : List PrefixRow) (p : MapIn) (order : List Nat)
+    (hwf : p.net.wfB = true) (ho : orderOKB p.net order = true) (hs : p.strip = false)
+    (hops : p.ops = genOps tbl p.net order false) (hc : p.check = none) (hpos : 0 < p.capsMin)
+    (f : Nat → List α → α) (m0 : Int → α) (env0 : Nat → α)
+    (h0 : ∀ x ∈ p.tracked, (∀ o ∈ p.ops, o.out ≠ x) → m0 (p.loc x) = env0 x)
+    (val : Nat → α)
+    (hval : SolvesJ (Jt p.net) (fun op => f op.code) ((genOps tbl p.net order false).map OpRow.toOp) env0 val) :
+    ∀ j s, (j, s) ∈ p.ppoSrcs →
+      MapSound.memRun p (MapSound.rowRW α) (fun o => f o.lut) p.ops m0 (p.loc j) = val s := by
+  intro j s hjs
+  rw [MapSound.check_sound_rows p hc hpos f m0 env0 h0 j s hjs]
+  have hmap : p.ops.map (MapSound.sigOp p) = (genOps tbl p.net order false).map OpRow.toOp := by
+    rw [hops]
+    apply List.map_congr_left
+    intro r _
+    exact sigOp_unstripped p hs r
+  rw [hmap, exec_eq_execG]
+  have hg := MapSound.good_of_check p hc
+  have hnj := hg.trNJ s (hg.ppo j s hjs).2.2
+  have hJ : Jt p.net s = false := by
+    simp only [MapIn.isJunk, Bool.or_eq_false_iff, beq_eq_false_iff_ne] at hnj
+    simp only [Jt, beq_eq_false_iff_ne]
+    exact hnj.1
+  exact ((all_circuits_solution tbl p.net order hwf ho (fun op => f op.code) env0).2 val hval s hJ).symm
+
+/-- non-vacuity of (4'''): the REAL tables of `SimOps(c_reuse=True)` for `demoNet` (location 5 is used by line 0, then by
+    line 4, then by the output slot) satisfy every hypothesis; the rows are the generated program -/
+def demoMap : MapIn :=
+  { net := demoNet, strip := false,
+    ops := [⟨43690, 0, 9, 6, 6, 6⟩, ⟨43690, 1, 10, 6, 6, 6⟩, ⟨43690, 2, 0, 6, 6, 6⟩, ⟨43690, 3, 1, 6, 6, 6⟩,
+            ⟨34952, 4, 2, 3, 6, 6⟩, ⟨21845, 5, 4, 6, 6, 6⟩],
+    starts := [0, 2, 4, 5], locs := #[5, 6, 7, 8, 5, 6, 0, 1, 2, 3, 4, -1, -1, -1, 6],
+    caps := #[1, 1, 1, 1, 1, 1, 1, 1, 1, 1, 1, 0, 0, 0, 1], cLen := 9, capsMin := 1 }
+example : demoMap.ops = genOps Gen.kindPrefixes demoMap.net [0, 2, 1, 3, 4, 5, 6] false ∧ demoMap.check = none ∧
+    demoMap.ppoSrcs = [(14, 5)] := by decide +kernel
 
 /-- (5) lane-wise for every lane count: lane `k` of the bit-parallel result is the per-lane function -/
 theorem lanewise2 (w k : Nat) (hk : k < w) (code : Nat) (a b c d : BitVec w) :
